@@ -66,19 +66,30 @@ func cmdCheck(args []string) (code int) {
 		fmt.Fprintf(os.Stderr, "no check registered for %q\n", *prop)
 		return 2
 	}
+	abs, _ := filepath.Abs(*repo)
+	r := newReport(*prop, *tier, seed)
+	loaded := false
 	defer func() {
 		if e := recover(); e != nil {
 			if ae, ok := e.(analysisError); ok {
 				fmt.Fprintf(os.Stderr, "ANALYSIS-ERROR property=%s: %s\n", *prop, ae.msg)
-				code = 2
+				if !loaded {
+					// the tree does not load / type-check: nothing can be said
+					code = 2
+					return
+				}
+				// the construct a rule is anchored in is no longer present in a
+				// shape the analysis resolves: the property is not shown on this
+				// tree, which is reported as a violation naming the lost anchor
+				r.violate("UNDECIDED", "anchor / "+ae.msg, "-", "the analysis cannot resolve a construct its rules are anchored in ("+ae.msg+"): the structural condition this check decides is not established on this tree", nil)
+				code = r.finish(*verif)
 				return
 			}
 			panic(e)
 		}
 	}()
-	abs, _ := filepath.Abs(*repo)
-	r := newReport(*prop, *tier, seed)
 	p := loadProgram(abs, "", nil)
+	loaded = true
 	f(p, r)
 	if *tier == "thorough" {
 		thorough(*prop, abs, *verif, r, f, p)
